@@ -12,7 +12,7 @@ from vf.ref import bencode as refbencode, metafile as refmeta
 
 ID = "C18"
 LEVEL = "exploration"
-TECHNIQUE = "Hypothesis-generated sandboxes (payload intact or damaged, metafiles of all versions, bystander files incl. '.torrent' and '<name>.torrent') x command x spelling, through cli.execute and the library functions; oracle: recursive snapshot diff (names, types, sizes, SHA-256, modes) of the sandbox before/after"
+TECHNIQUE = "Hypothesis-generated sandboxes (payload intact or damaged, metafiles of all versions, bystander files incl. '.torrent' and '<name>.torrent') x command x spelling, through cli.execute and the library functions; oracle: recursive snapshot diff (names, types, sizes, SHA-256, modes) of the sandbox before/after ; foreign metafiles, occupant kinds for rename, -q -v combinations, shell-pattern names"
 RULE = ("Cases: sandbox directory (also the cwd) holding a payload (intact, byte-flipped, or with a file removed), its metafile (v1/v2/hybrid), "
         "bystander files including the names '.torrent', '<name>.torrent' and files inside an output directory; command in {recheck, check, "
         "info, magnet, m, library Checker/info/magnet, create, new (without -o, -o file, -o existing file, -o dir/), rename (target free / "
